@@ -130,11 +130,20 @@ class InterpBase:
                 self.valof[a] = b
             else:
                 self.notvals[a] = frozenset(self.notvals.get(a, ())) | {b}
+        elif k == "isinst" and not val and atom[2] in self.M.classes:
+            cur = self.refined.get(atom[1])
+            if cur is not None and len(cur) > 1 and obj(atom[2]) in cur:
+                self.refined[atom[1]] = frozenset(cur) - {obj(atom[2])}
         elif k == "isinst" and val:
             _, t, cname = atom
             h5map = {"ext:h5py.Group": h5("grp"), "ext:h5py.Dataset": h5("ds"), "ext:h5py.File": h5("file")}
             if cname in h5map:
                 self.refined[t] = frozenset([h5map[cname]])
+            elif "|" in cname and all(n in self.M.classes for n in cname.split("|")):
+                # isinstance(x, (A, B)): x is one of them; a later `isinstance(x, A)` found false leaves B
+                left = [n for n in cname.split("|") if self.facts.get(("isinst", t, n)) is not False]
+                if left:
+                    self.refined[t] = frozenset(obj(n) for n in left)
             elif "|" in cname or cname.startswith(("ext:", "py:", "?:")):
                 pass            # a union / foreign type: keep what is known about the term
             else:
